@@ -194,6 +194,10 @@ func AddCanonStress(r *rng.R, w *World) {
 		{{Proto: "UDP", Port: 1, EndPort: 32768}, {Proto: "UDP", Port: 32769, EndPort: 65535}},
 		{{Proto: "TCP", Port: 80, EndPort: 100}, {Proto: "TCP", Port: 90, EndPort: 110}, {Proto: "TCP", Port: 85}},
 		{{Proto: "SCTP", Port: 65535}, {Proto: "SCTP", Port: 1}, {Proto: "SCTP", Port: 2, EndPort: 65534}},
+		// a long connection: many non-contiguous items over several protocols (formatters that wrap, truncate or abbreviate)
+		{{Proto: "TCP", Port: 80}, {Proto: "TCP", Port: 443}, {Proto: "TCP", Port: 5000}, {Proto: "TCP", Port: 5432}, {Proto: "TCP", Port: 8000}, {Proto: "TCP", Port: 8080},
+			{Proto: "TCP", Port: 8443}, {Proto: "TCP", Port: 9000}, {Proto: "TCP", Port: 9090}, {Proto: "TCP", Port: 9443}, {Proto: "UDP", Port: 53}, {Proto: "UDP", Port: 5353},
+			{Proto: "SCTP", Port: 7, EndPort: 9}, {Proto: "SCTP", Port: 11}, {Proto: "TCP", Port: 20, EndPort: 21}, {Proto: "TCP", Port: 25}, {Proto: "UDP", Port: 123}, {Proto: "UDP", Port: 161, EndPort: 162}},
 	}
 	cidrSets := [][]NPPeer{
 		{{IPBlock: &IPB{CIDR: "0.0.0.0/1"}}, {IPBlock: &IPB{CIDR: "128.0.0.0/1"}}},
@@ -253,6 +257,38 @@ func AddCanonStress(r *rng.R, w *World) {
 			w.NetPols = append(w.NetPols, np)
 		}
 		w.AddFeature("complementaryPolicies")
+	}
+	// holed entire-cluster rule: every port of one protocol but one, towards the whole cluster, next to a specific rule that allows
+	// a named port or exactly the missing port (containment tests against an almost-full set that spans both ends of the range)
+	if r.P(0.3) {
+		wl := rng.Pick(r, w.Workloads)
+		ing := r.P(0.5)
+		pr := rng.Pick(r, Protos)
+		hole := rng.Pick(r, []int{2, 80, 80, 443, 443, 8080, 8080, 65534})
+		np := NetPol{Ns: wl.Ns, Name: "holed", PodSel: *SelFor(r, wl.Labels), HasTypes: true}
+		wide := NPRule{Peers: []NPPeer{{NsSel: &Sel{}}}, Ports: []NPPort{{Proto: pr, Port: 1, EndPort: hole - 1}, {Proto: pr, Port: hole + 1, EndPort: 65535}}}
+		narrowPort := NPPort{Proto: pr, Port: hole}
+		if r.P(0.6) {
+			narrowPort = NPPort{Proto: pr, Name: rng.Pick(r, PortNames)}
+			if nm, ok := map[int]string{80: "http", 443: "dns", 8080: "metrics"}[hole]; ok && r.P(0.6) {
+				narrowPort.Name = nm // the name a pod would conventionally give to the missing port
+			}
+		}
+		narrow := NPRule{Peers: []NPPeer{{NsSel: GenSel(r, w, false, 0)}}, Ports: []NPPort{narrowPort}}
+		if r.P(0.5) {
+			narrow.Peers[0].PodSel = GenSel(r, w, true, 0.2)
+		}
+		rules := []NPRule{wide, narrow}
+		if r.P(0.5) {
+			rules = []NPRule{narrow, wide}
+		}
+		if ing {
+			np.Ingress, np.PolicyTypes = rules, []string{"Ingress"}
+		} else {
+			np.Egress, np.PolicyTypes = rules, []string{"Egress"}
+		}
+		w.NetPols = append(w.NetPols, np)
+		w.AddFeature("holedClusterRule")
 	}
 	w.AddFeature("canonStress")
 	TagNetPolFeatures(w)
